@@ -235,6 +235,22 @@ def check_car(rec, rng, quick):
                 ok2, C2 = rec.guarded('CAR:correlation_function:exception', lambda: psi.correlation_function(a, c), {'L': L})
                 if ok and ok2:
                     rec.check(np.allclose(C1 + C2.T, np.eye(L), atol=1e-9), 'CAR:correlation-functions', f'<{c}_i {a}_j> + <{a}_j {c}_i> != delta', {'L': L, 'site': fam_name})
+            # the same through the term correlation functions (the moving term is the left / the right one); odd-parity terms
+            if L >= 3:
+                for a, c in list(zip(ann, cre))[:2]:
+                    for x, y in ((a, c), (c, a), (a, a)):
+                        js = list(range(1, L))
+                        ok, r = rec.guarded('CAR:term_correlation_function_right:exception',
+                                            lambda: psi.term_correlation_function_right([(x, 0)], [(y, 0)], i_L=0, j_R=js), {'L': L, 'ops': (x, y)})
+                        if ok:
+                            exp = [mpsgen.expect_dense(v, sites, [(x, 0), (y, j)]) for j in js]
+                            rec.check(np.allclose(r, exp, atol=1e-9), 'CAR:term_correlation_function_right', f'<{x}_0 {y}_j>', {'L': L, 'ops': (x, y), 'site': fam_name})
+                        il = list(range(0, L - 1))
+                        ok, r = rec.guarded('CAR:term_correlation_function_left:exception',
+                                            lambda: psi.term_correlation_function_left([(x, 0)], [(y, 0)], i_L=il, j_R=L - 1), {'L': L, 'ops': (x, y)})
+                        if ok:
+                            exp = [mpsgen.expect_dense(v, sites, [(x, i), (y, L - 1)]) for i in sorted(il, reverse=True)]
+                            rec.check(np.allclose(r, exp, atol=1e-9), 'CAR:term_correlation_function_left', f'<{x}_i {y}_(L-1)>', {'L': L, 'ops': (x, y), 'site': fam_name})
             # quadruples through expectation_value_term
             for _ in range(10 if quick else 100):
                 idx = rng.integers(0, L, size=4)
